@@ -174,6 +174,11 @@ int KSI_FTLV_memRead(const unsigned char *m, size_t l, KSI_FTLV *t) {
 	/* Initialize offset. */
 	t->off = 0;
 
+	if (l == 0) {
+		res = KSI_INVALID_FORMAT;
+		goto cleanup;
+	}
+
 	if (m[0] & KSI_TLV_MASK_TLV16) {
 		res = parseHdr(m, l, t);
 		if (res != KSI_OK) goto cleanup;
